@@ -1,6 +1,7 @@
 //! Verification hook (only compiled with `--cfg manuel_woelker_rust_vfs_verif`).
 //!
-//! `yield_point` is called immediately before every lock acquisition of `MemoryFS`. It does
+//! `MemoryFS` uses the `RwLock` wrapper of this module instead of `std::sync::RwLock`; the wrapper
+//! calls `yield_point` immediately before every lock acquisition. It does
 //! nothing unless a schedule has been installed; with a schedule, registered threads hand a
 //! single "turn" to each other in exactly the recorded order, which replays one lock-level
 //! interleaving deterministically.
@@ -104,5 +105,25 @@ pub fn finish() {
 pub fn yield_point(_label: &str) {
     if let Some(me) = TID.with(|t| t.get()) {
         hand_over(me, true);
+    }
+}
+
+/// `std::sync::RwLock` with a switch point before every acquisition
+#[derive(Debug)]
+pub struct RwLock<T>(std::sync::RwLock<T>);
+
+impl<T> RwLock<T> {
+    pub fn new(value: T) -> Self {
+        RwLock(std::sync::RwLock::new(value))
+    }
+
+    pub fn read(&self) -> std::sync::LockResult<std::sync::RwLockReadGuard<'_, T>> {
+        yield_point("read");
+        self.0.read()
+    }
+
+    pub fn write(&self) -> std::sync::LockResult<std::sync::RwLockWriteGuard<'_, T>> {
+        yield_point("write");
+        self.0.write()
     }
 }
